@@ -94,6 +94,14 @@ def realize_build(spec):
     if kind == "slicemul":
         n = len(base)
         return base[0:n] * 2 + base
+    if kind in ("obs_splice", "obs_setitem"):
+        # memoised views of the SOURCE are filled first; the result must not inherit them
+        base.width, len(base), base.s, str(base)
+        for n in range(len(base) + 1):
+            base.width_at_offset(n)
+        if kind == "obs_splice":
+            return base.splice(spec[2], spec[3], spec[4])
+        return base.setitem(spec[3], spec[2])
     raise KeyError(kind)
 
 
@@ -106,18 +114,24 @@ def shared_variants(chunks, other=None):
 
 
 _pools = {}
+WTEXTS = ["", "a", "ab", "\uff25", "a\uff25", "\uff25\uff25", "\u0301", "a\u0301", "\u0301a", "\uff25\u0301b", "ab\uff25c", "x y",
+          "a\u0301\uff25\u0301"]
 
 
-def pool_object(seed, index, steps=14):
+def pool_object(seed, index, steps=14, wide=False):
     from props.common import api_pool
-    if seed not in _pools:
-        _pools[seed] = api_pool(_random.Random(seed), steps)[0]
-    return _pools[seed][index]
+    key = (seed, wide)
+    if key not in _pools:
+        if wide:
+            _pools[key] = api_pool(_random.Random(seed), steps, texts=WTEXTS)[0]
+        else:
+            _pools[key] = api_pool(_random.Random(seed), steps)[0]
+    return _pools[key][index]
 
 
-def pool_size(seed, steps=14):
-    pool_object(seed, 0, steps)
-    return len(_pools[seed])
+def pool_size(seed, steps=14, wide=False):
+    pool_object(seed, 0, steps, wide)
+    return len(_pools[(seed, wide)])
 
 
 def realize(c):
@@ -125,7 +139,7 @@ def realize(c):
     if "build" in c:
         return realize_build(c["build"])
     if "pool" in c:
-        return pool_object(c["pool"][0], c["pool"][1])
+        return pool_object(c["pool"][0], c["pool"][1], wide=len(c["pool"]) > 2 and bool(c["pool"][2]))
     return _wire.mk_fmt(c["f"])
 
 
